@@ -1,69 +1,105 @@
-import GarbleVerif.Proofs.BitCore
+import GarbleVerif.Proofs.BitMain
 /-!
 # C01 — the compiled circuit returns exactly the value the source program denotes
 
-**Proved (core fragment, all widths, all inputs).** `Bit.bitExpr` / `Bit.bitStmts`
+**Proved (core fragment, all widths, all inputs).** `Bit.bitExpr` / `Bit.bitStmts` / `Bit.bitStmt`
 (Model/BitSem.lean) follow `compile.rs` on Booleans and integers of every width — literals,
 variables, `!`, unary `-`, `+`, `-`, `<`, `>`, `<=`, `>=`, `==`, `!=`, `&`, `|`, `^` on Booleans, `&&`,
-`||`, `as` between all these types, `if`/`else`, blocks with `let` — computing, for given inputs, the value every output wire carries
-and the abstract state of the panic record. The operators are the bit-list functions of
+`||`, `as` between all these types, `if`/`else` as expression and as statement, blocks, `let`,
+`let mut`, assignment to a variable — computing, for given inputs, the value every output wire
+carries, the abstract state of the panic record and the wires of every variable in scope (the
+branches of an `if` and the right operand of `&&` / `||` are compiled unconditionally and every
+variable is merged afterwards, `mux_envs`). The operators are the bit-list functions of
 Model/Arith.lean (tied to `CircuitBuilder` by C03/C04, proved exact in Proofs/Arith*.lean).
 
 `C01_core`: for every program body of the fragment, every environment of well-typed values and
 every fuel, if the source semantics return a value then the bit-level evaluation returns exactly
-the encoding of that value and no panic; if they fail, it reports exactly that failure (the first
-failing operation: C02 at program level for the fragment). Both directions together: the panic
-flag is set iff the source execution fails.
+the encoding of that value and no panic, and the wires of the variables encode the environment
+the source semantics end with; if they fail, it reports exactly that failure (the first failing
+operation: C02 at program level for the fragment). Both directions together: the panic flag is set
+iff the source execution fails. `C01_core_defined`: the source semantics are never stuck on a
+program of the fragment (type soundness).
 
 **Explored (whole language).** Everything outside the fragment (`*`, `/`, `%`, shifts,
-bitwise operators on integers, aggregates, `match`, loops, mutation, functions) is compared on
-generated programs on every run: circuit output against `Src.evalStmts`, and — for programs of
-the fragment — against `Bit.bitStmts` as well, which ties the model in this theorem to the code.
+bitwise operators on integers, aggregates, `match`, loops, functions, assignment through
+accessors) is compared on generated programs on every run: circuit output against `Src.evalStmts`,
+and — for programs of the fragment — against `Bit.bitStmts` as well, which ties the model of
+this theorem to the code.
 -/
 namespace GV
 namespace Bit
 open Src
 
-/-- **C01 / C02 for the core fragment** -/
-theorem C01_core (prog : Prog) (fuel : Nat) (env : Src.Env) (benv : BEnv) (body : StmtList)
-    (t : STy) (bits : List Bool) (p : P)
-    (henv : EnvRel env benv) (hbits : bitStmts benv body = some (t, bits, p)) :
-    (∀ v env', evalStmts fuel prog env body = .ok (v, env') →
-        v.hasType t.toTy = true ∧ bits = v.encode t.toTy ∧ p = none) ∧
-    (∀ k, evalStmts fuel prog env body = .error (.panic k) → p = some k) := by
-  have h := (core_all prog fuel fuel (Nat.le_refl _)).2 body env benv t bits p henv hbits
-  refine ⟨fun v env' hv => ?_, h.2⟩
-  obtain ⟨_, hr, hp⟩ := h.1 v env' hv
-  exact ⟨hr.hasType_encode.1, hr.hasType_encode.2, hp⟩
+/-- what `C01_core` says about a value: it has the type and the wires carry its encoding -/
+theorem VRel.hasType_encode {t : STy} {v : Val} {bs : List Bool} (h : VRel (.s t) v bs) :
+    v.hasType t.toTy = true ∧ bs = v.encode t.toTy :=
+  Rel.hasType_encode h
 
-/-- the same for expressions; evaluation leaves the environment unchanged (the fragment has no
-assignments) -/
-theorem C01_core_expr (prog : Prog) (fuel : Nat) (env : Src.Env) (benv : BEnv) (e : Expr)
+/-- **C01 / C02 for the core fragment** (statement lists: function bodies) -/
+theorem C01_core (prog : Prog) (fuel : Nat) (env : Src.Env) (benv benv' : BEnv) (body : StmtList)
     (t : STy) (bits : List Bool) (p : P)
-    (henv : EnvRel env benv) (hbits : bitExpr benv e = some (t, bits, p)) :
+    (henv : EnvRel env benv) (hbits : bitStmts benv body = some (.s t, bits, p, benv')) :
+    (∀ v env', evalStmts fuel prog env body = .ok (v, env') →
+        v.hasType t.toTy = true ∧ bits = v.encode t.toTy ∧ p = none ∧ EnvRel env' benv') ∧
+    (∀ k, evalStmts fuel prog env body = .error (.panic k) → p = some k) := by
+  have h := (core_all prog fuel).2.1 body env benv _ bits p benv' henv hbits
+  constructor
+  · intro v env' hv
+    rw [hv] at h
+    obtain ⟨hp, hr, he⟩ := h
+    exact ⟨(VRel.hasType_encode hr).1, (VRel.hasType_encode hr).2, hp, he⟩
+  · intro k hk
+    rw [hk] at h
+    exact h
+
+/-- the same for expressions; assignments inside the expression are reflected in the variables -/
+theorem C01_core_expr (prog : Prog) (fuel : Nat) (env : Src.Env) (benv benv' : BEnv) (e : Expr)
+    (t : STy) (bits : List Bool) (p : P)
+    (henv : EnvRel env benv) (hbits : bitExpr benv e = some (.s t, bits, p, benv')) :
     (∀ v env', evalExpr fuel prog env e = .ok (v, env') →
-        env' = env ∧ v.hasType t.toTy = true ∧ bits = v.encode t.toTy ∧ p = none) ∧
+        v.hasType t.toTy = true ∧ bits = v.encode t.toTy ∧ p = none ∧ EnvRel env' benv') ∧
     (∀ k, evalExpr fuel prog env e = .error (.panic k) → p = some k) := by
-  have h := (core_all prog fuel fuel (Nat.le_refl _)).1 e env benv t bits p henv hbits
-  refine ⟨fun v env' hv => ?_, h.2⟩
-  obtain ⟨he, hr, hp⟩ := h.1 v env' hv
-  exact ⟨he, hr.hasType_encode.1, hr.hasType_encode.2, hp⟩
+  have h := (core_all prog fuel).1 e env benv _ bits p benv' henv hbits
+  constructor
+  · intro v env' hv
+    rw [hv] at h
+    obtain ⟨hp, hr, he⟩ := h
+    exact ⟨(VRel.hasType_encode hr).1, (VRel.hasType_encode hr).2, hp, he⟩
+  · intro k hk
+    rw [hk] at h
+    exact h
 
 /-- **the fragment is type-sound**: a program that `bitStmts` accepts never gets stuck in the source
 semantics — with enough fuel it returns a value of its type or fails with one of the three panics -/
-theorem C01_core_defined (prog : Prog) (fuel : Nat) (env : Src.Env) (benv : BEnv) (body : StmtList)
-    (t : STy) (bits : List Bool) (p : P)
-    (henv : EnvRel env benv) (hbits : bitStmts benv body = some (t, bits, p)) :
-    ∀ why, evalStmts fuel prog env body ≠ .error (.stuck why) :=
-  (noStuck_all prog fuel fuel (Nat.le_refl _)).2 body env benv t bits p henv hbits
+theorem C01_core_defined (prog : Prog) (fuel : Nat) (env : Src.Env) (benv benv' : BEnv) (body : StmtList)
+    (t : VTy) (bits : List Bool) (p : P)
+    (henv : EnvRel env benv) (hbits : bitStmts benv body = some (t, bits, p, benv')) :
+    ∀ why, evalStmts fuel prog env body ≠ .error (.stuck why) := by
+  intro why hw
+  have h := (core_all prog fuel).2.1 body env benv _ bits p benv' henv hbits
+  rw [hw] at h
+  exact h
 
-/-- non-vacuity: `x + 1u8` with `x = 255`: the source semantics fail with Overflow, and so does the
-bit-level evaluation; with `x = 7` both give 8 -/
+/-! ### non-vacuity -/
+
+/-- `x + 1u8` with `x = 255`: the source semantics fail with Overflow, and so does the bit-level
+evaluation; with `x = 7` both give 8 -/
 example : bitExpr [("x", .int .u8, enc .u8 255)] (.bin .add (.int .u8) (.var "x") (.int 1 .u8)) =
-    some (.int .u8, enc .u8 0, some .overflow) := by decide
+    some (.s (.int .u8), enc .u8 0, some .overflow, [("x", .int .u8, enc .u8 255)]) := by rfl
 
 example : bitExpr [("x", .int .u8, enc .u8 7)] (.bin .add (.int .u8) (.var "x") (.int 1 .u8)) =
-    some (.int .u8, enc .u8 8, none) := by decide
+    some (.s (.int .u8), enc .u8 8, none, [("x", .int .u8, enc .u8 7)]) := by rfl
+
+/-- `if c { x = 1u8; } else { }` followed by `x`: the variable is merged by the condition -/
+def C01_example_body : StmtList :=
+  .cons (.expr (.ite (.var "c") (.block (.cons (.assign "x" .nil (.int 1 .u8)) .nil)) (.block .nil)))
+    (.cons (.expr (.var "x")) .nil)
+
+example : bitStmts [("c", .bool, [true]), ("x", .int .u8, enc .u8 7)] C01_example_body =
+    some (.s (.int .u8), enc .u8 1, none, [("c", .bool, [true]), ("x", .int .u8, enc .u8 1)]) := by rfl
+
+example : bitStmts [("c", .bool, [false]), ("x", .int .u8, enc .u8 7)] C01_example_body =
+    some (.s (.int .u8), enc .u8 7, none, [("c", .bool, [false]), ("x", .int .u8, enc .u8 7)]) := by rfl
 
 example : EnvRel [("x", .int 7)] [("x", .int .u8, enc .u8 7)] :=
   EnvRel.cons ⟨by decide, rfl⟩ EnvRel.nil
